@@ -383,7 +383,7 @@ func UUIDValue(info Info, data []byte) (Info, error) {
 			}...)
 		case 8:
 			info.Description = "UUID v8 (custom)"
-		case 0xff:
+		case 15:
 			if u.String() == uuid.Max.String() {
 				info.Description = "UUID (Max UUID)"
 			}
